@@ -168,6 +168,28 @@ class ProgramRunner(object):
                 if forced == 'skip' or tgt not in coll:
                     return 'skip'
                 coll.remove(tgt)
+        elif op in ('core_link', 'core_unlink'):
+            # a Core statement on the association table of a many-to-many relationship (no ORM collection involved)
+            _, cname, pk, rel, tcls, tpk = step[:6]
+            obj = self.find(cname, pk)
+            tgt = self.find(tcls, tpk)
+            if obj is None or tgt is None or sa.inspect(obj).pending or sa.inspect(tgt).pending:
+                return 'skip'
+            prop = getattr(type(obj), rel).property
+            vals = {}
+            for lc, ac in prop.synchronize_pairs:
+                vals[ac.name] = getattr(obj, type(obj).__mapper__.get_property_by_column(lc).key)
+            for rc, ac in prop.secondary_synchronize_pairs:
+                vals[ac.name] = getattr(tgt, type(tgt).__mapper__.get_property_by_column(rc).key)
+            t = prop.secondary
+            style = step[6] if len(step) > 6 else 'params'
+            if op == 'core_link':
+                if style == 'values':
+                    s.execute(t.insert().values(**vals))      # values inside the statement
+                else:
+                    s.execute(t.insert(), vals)               # values as execution parameters
+            else:
+                s.execute(t.delete().where(sa.and_(*[t.c[k] == sa.bindparam(k) for k in vals])), vals)
         elif op == 'activity':
             _, verb, cname, pk, tcls, tpk = step
             obj = self.find(cname, pk)
